@@ -156,7 +156,7 @@ PROPS['C06'] = dict(
     technique='contract-based deductive verification (Verus): block contracts on verbatim statement ranges + function contracts on the accessors',
 )
 PROPS['C11'] = dict(
-    level='proof', verus=['c11_clamp', 'c10_sign', 'c11_order', 'c20_timestamp'],
+    level='proof', verus=['c11_clamp', 'c10_sign', 'c11_order', 'c20_timestamp', 'c06_add_data'],
     trusted_base=[A_TOOLS, A_EXTRACT, 'BLOCK contracts: the three clamping statements are verbatim statement ranges of prepare_data / build_and_sign wrapped into synthetic functions over their free variables (the clock reading `now` is a parameter); the enclosing functions are not verified'],
     assumptions=['claimed: the SECOND sentence ("no timestamp - build time, file modification times, signature creation time - is later than the source date") and, of the FIRST sentence, the one source of nondeterminism the property names: the user() / group() recommends entries are appended in the ASCENDING order of the sets\' contents, i.e. as a function of the builder state and not of a per-instance hash seed (unit c11_order: the set type is read from the declaring statements, a stand-in HashSet iterates in an arbitrary per-instance order, a stand-in BTreeSet in ascending order as std documents). Byte-identity of whole packages across processes (clock without source date, TZ, every other collection of the 750-line prepare_data) is relational over process environments and is NOT decided',
                  'R11: `<` on Timestamp is the order of the seconds (derived PartialOrd on the tuple struct)',
